@@ -1,5 +1,7 @@
 import TinysetModel.Proofs.Plain
 import TinysetModel.Proofs.Consts
+import TinysetModel.Proofs.Refine
+import TinysetModel.Proofs.CfgInst
 /-! C01 — SetU64 behaves as an exact mathematical set of u64 under every history.
 The theorems below are about the executable model instantiated at `cfg64`. -/
 namespace C01
@@ -56,4 +58,101 @@ theorem premove_present' {a : Tbl} {off k i0 : Nat} (inv : Inv a off) {b : Nat} 
 theorem consts_u64 : TinyC.codec64.splits = Gen.bitsplits64 ∧ (∀ p ∈ Gen.tagMasks64, p.2 = 7) :=
   ⟨bitsplits64_match, tagMasks64_coherent⟩
 
+/-! ### the set-level refinement theorems (`Proofs/Refine.lean`) at `cfg64`
+
+`elems cfg64 r` (the iteration order) is the abstraction of a representation `r`; `WF cfg64 r` is the
+representation invariant. All statements are "whenever the model returns": the model's error results
+(`Err.fuel`, `Err.scan`, …) are excluded by hypothesis, not claimed impossible. -/
+
+/-- `insert` is set insertion: for every RNG oracle `g`, every fuel, every well-formed `r` and every `e < 2^64`,
+    if `insert` returns `(r', b)` then `r'` is well formed, `b` says "`e` was absent", and `r'` has exactly
+    the members of `r` plus `e` -/
+theorem insert_refines_u64 {D : Type} (g : Rng D) (fuel : Nat) {r : Rp} (wf : WF cfg64 r) (e : Nat) (he : e < 2 ^ 64)
+    {d d' : D} {r' : Rp} {b : Bool} (h : insert cfg64 g fuel r e d = .ok ((r', b), d')) : InsOK cfg64 r e r' b :=
+  insert_refines cfg64_ok g fuel r e d r' b d' wf he h
+
+/-- `remove` is set removal: if it returns `(r', b)` then `r'` is well formed, `b` says "`e` was present", and `r'`
+    has exactly the members of `r` other than `e` -/
+theorem remove_refines_u64 {D : Type} (g : Rng D) (fuel : Nat) {r : Rp} (wf : WF cfg64 r) (e : Nat) (he : e < 2 ^ 64)
+    {d d' : D} {r' : Rp} {b : Bool} (h : remove cfg64 g fuel r e d = .ok ((r', b), d')) : RemOK cfg64 r e r' b :=
+  remove_refines cfg64_ok g fuel wf e he h
+
+/-- `contains` is membership, in all five shapes (empty, inline, dense bitset, plain table, bitmap table) -/
+theorem contains_refines_u64 {r : Rp} (wf : WF cfg64 r) (e : Nat) (he : e < 2 ^ 64) :
+    contains cfg64 r e = true ↔ e ∈ elems cfg64 r :=
+  contains_refines cfg64_ok wf e he
+
+/-- a well-formed value has no duplicate members, `len` is their number, and they are all `< 2^64` -/
+theorem absOK_u64 {r : Rp} (wf : WF cfg64 r) : AbsOK cfg64 r :=
+  absOK_of_wf cfg64_ok wf
+
+/-- `len` grows by one exactly when `insert` reports "was absent" -/
+theorem len_insert_u64 {D : Type} (g : Rng D) (fuel : Nat) {r : Rp} (wf : WF cfg64 r) (e : Nat) (he : e < 2 ^ 64)
+    {d d' : D} {r' : Rp} {b : Bool} (h : insert cfg64 g fuel r e d = .ok ((r', b), d')) :
+    len r' = if b = true then len r + 1 else len r :=
+  len_insert cfg64_ok g fuel wf e he h
+
+/-- `len` shrinks by one exactly when `remove` reports "was present" -/
+theorem len_remove_u64 {D : Type} (g : Rng D) (fuel : Nat) {r : Rp} (wf : WF cfg64 r) (e : Nat) (he : e < 2 ^ 64)
+    {d d' : D} {r' : Rp} {b : Bool} (h : remove cfg64 g fuel r e d = .ok ((r', b), d')) :
+    len r' = if b = true then len r - 1 else len r :=
+  len_remove cfg64_ok g fuel wf e he h
+
+/-- **every history**: for every RNG oracle, every fuel and every list of `insert`/`remove`/`contains`/`len`
+    calls with arguments `< 2^64`, started on the empty set: if the model run returns, its answers are exactly
+    the answers of the ideal set (`specRun []`), the final value is well formed and represents the final ideal set -/
+theorem run_refines_u64 {D : Type} (g : Rng D) (fuel : Nat) (ops : List Op) (hops : ∀ op ∈ ops, op.InRange 64)
+    {d d' : D} {r' : Rp} {outs : List Out} (h : runOps cfg64 g fuel .empty ops d = .ok ((r', outs), d')) :
+    WF cfg64 r' ∧ outs = (specRun [] ops).2 ∧ (∀ x, x ∈ elems cfg64 r' ↔ x ∈ (specRun [] ops).1) :=
+  run_refines_empty cfg64_ok g fuel ops hops h
+
+/-- the same from any well-formed start `r` representing the duplicate-free list `s` -/
+theorem run_refines_from_u64 {D : Type} (g : Rng D) (fuel : Nat) (ops : List Op) (hops : ∀ op ∈ ops, op.InRange 64)
+    {r : Rp} (wf : WF cfg64 r) (s : List Nat) (hs : s.Nodup) (hrs : ∀ x, x ∈ elems cfg64 r ↔ x ∈ s)
+    {d d' : D} {r' : Rp} {outs : List Out} (h : runOps cfg64 g fuel r ops d = .ok ((r', outs), d')) :
+    WF cfg64 r' ∧ outs = (specRun s ops).2 ∧ (∀ x, x ∈ elems cfg64 r' ↔ x ∈ (specRun s ops).1) :=
+  run_refines cfg64_ok g fuel ops hops wf s hs hrs h
+
+/-! ### the hypotheses are satisfiable: a concrete run that leaves the inline representation -/
+
+/-- a small history -/
+def demo : List Op := [.ins 5, .ins 1000, .ins (2 ^ 40), .rem 5, .con 1000, .con 5, .ins 1000, .len]
+
+/-- the model (with the crate's deterministic generator, fuel 6) does return on `demo`, in a heap layout -/
+theorem demo_runs : runOps cfg64 detRng 6 .empty demo () = .ok ((.heap 2 3 23 #[401016175510691840, 360712192, 0], [.bool true, .bool true, .bool true, .bool true, .bool true, .bool false, .bool false, .nat 2]), ()) := by
+  decide +kernel
+
+/-- so this table is a non-trivial well-formed state … -/
+theorem demo_wf : WF cfg64 (.heap 2 3 23 #[401016175510691840, 360712192, 0]) :=
+  (run_refines_u64 detRng 6 demo (by decide) demo_runs).1
+
+/-- … its answers were the ideal ones … -/
+example : [.bool true, .bool true, .bool true, .bool true, .bool true, .bool false, .bool false, .nat 2] = (specRun [] demo).2 :=
+  (run_refines_u64 detRng 6 demo (by decide) demo_runs).2.1
+
+/-- … the ideal set at the end is this one … -/
+example : (specRun [] demo).1 = [1000, 2 ^ 40] := by decide
+
+/-- … and the single-operation theorems apply to it -/
+example : contains cfg64 (.heap 2 3 23 #[401016175510691840, 360712192, 0]) 1000 = true :=
+  (contains_refines_u64 demo_wf 1000 (by decide)).2
+    (((run_refines_u64 detRng 6 demo (by decide) demo_runs).2.2 1000).2 (by decide))
+
+example : contains cfg64 (.heap 2 3 23 #[401016175510691840, 360712192, 0]) 5 ≠ true := fun h =>
+  absurd (((run_refines_u64 detRng 6 demo (by decide) demo_runs).2.2 5).1
+    ((contains_refines_u64 demo_wf 5 (by decide)).1 h)) (by decide)
+
+example : len (.heap 2 3 23 #[401016175510691840, 360712192, 0]) = (specRun [] demo).1.length := by
+  have ab := absOK_u64 demo_wf
+  rw [ab.len]
+  exact ((List.perm_ext_iff_of_nodup ab.nodup (specRun_nodup demo List.nodup_nil)).2
+    (run_refines_u64 detRng 6 demo (by decide) demo_runs).2.2).length_eq
+
 end C01
+
+#print axioms C01.insert_refines_u64
+#print axioms C01.remove_refines_u64
+#print axioms C01.contains_refines_u64
+#print axioms C01.run_refines_u64
+#print axioms C01.demo_runs
+#print axioms C01.demo_wf
